@@ -550,6 +550,83 @@ example : (match appendInto DT (fileOf {} "u" exF) exX [] false .yes (some "r/a"
     | .ok f => validFile DT {} f && (f.at ["r", "a", "g"]).isSome && (f.at ["r", "a", "other"]).isNone
     | .error _ => false) = true := by decide
 
+/-- a node whose children are, path by path, the `combine` of two families of valid-bodied nodes has only valid bodies -/
+theorem allInfo_combine (over : Bool) (S' : Tree) (i : NodeInfo) (k1 k2 : List Tree) (hw : S'.wf CT DT = true)
+    (hi : S'.info = i) (hiok : infoOK i = true)
+    (h1 : allInfoKids infoOK k1 = true) (h2 : allInfoKids infoOK k2 = true)
+    (hspec : ∀ n p, cK S'.kids n p = combine over (cK k1 n p) (cK k2 n p)) : S'.allInfo infoOK = true := by
+  apply allInfo_of_paths infoOK S' hw (by rw [hi]; exact hiok)
+  intro n p j hj
+  rw [hspec n p] at hj
+  cases hf : cK k1 n p with
+  | none =>
+    rw [hf] at hj
+    simp only [combine] at hj
+    exact paths_of_allInfo infoOK k2 h2 n p j hj
+  | some x =>
+    rw [hf] at hj
+    cases hr : cK k2 n p with
+    | none =>
+      rw [hr] at hj; simp only [combine, Option.some.injEq] at hj
+      subst hj; exact paths_of_allInfo infoOK k1 h1 n p x hf
+    | some y =>
+      rw [hr] at hj; simp only [combine, Option.some.injEq] at hj
+      subst hj
+      split
+      · exact paths_of_allInfo infoOK k2 h2 n p y hr
+      · exact paths_of_allInfo infoOK k1 h1 n p x hf
+
+theorem allInfo_kids (P : NodeInfo → Bool) (t : Tree) (h : t.allInfo P = true) : allInfoKids P t.kids = true ∧ P t.info = true := by
+  cases t with
+  | mk i k => simp only [Tree.allInfo, Bool.and_eq_true] at h; exact ⟨h.2, h.1⟩
+
+/-- C05 after a targeted append BELOW an existing node (`C09_target_below`: node in both trees, tree=None — its children
+    merged by the union rule): the file is still a well-formed EMD 1.0 file -/
+theorem C05_target_below (sess : Session) (over : Bool) (f : Obj) (F Rt S D : Tree) (body' : List (String × Obj))
+    (n0 : String) (p0 : List String)
+    (hv : validFile DT sess f = true)
+    (hFok : F.allInfo infoOK = true) (hRok : Rt.allInfo infoOK = true)
+    (hmdR : (mdEntries Rt.info).all (fun kv => mdEntryOK kv.2) = true)
+    (hF : F.rootedWF CT DT = true) (hR : Rt.rootedWF CT DT = true) (hname : Rt.name = F.name)
+    (hf : alookup F.name f.kids = some (encode F)) (hroot : (rootGroups f).contains F.name = true)
+    (hmdname : "metadatabundle" ∉ names F.kids)
+    (hmd : mdBody over F.info.body (mdEntries Rt.info) = .ok body')
+    (hS : F.at (n0 :: p0) = some S) (hD : Rt.at (n0 :: p0) = some D)
+    (hcompat : compatKids over S.info S.kids (akeys S.info.body ++ names S.kids ++ names D.kids) D.kids = true) :
+    ∃ f', appendInto DT f Rt (n0 :: p0) over .below none = .ok f' ∧ validFile DT sess f' = true := by
+  obtain ⟨S', hS'w, hS'i, hap, hspec, hwf⟩ :=
+    C09_target_below over f F Rt S D body' n0 p0 hF hR hname hf hroot hmdname hmd hS hD hcompat
+  refine ⟨_, hap, ?_⟩
+  have hFroot : F.info.gtype = "root" := by
+    simp only [Tree.rootedWF, Bool.and_eq_true, beq_iff_eq] at hF; exact hF.2
+  have hF1ok : (withBody F body').allInfo infoOK = true := by
+    cases F with
+    | mk i k =>
+      simp only [Tree.allInfo, Bool.and_eq_true] at hFok
+      simp only [withBody, Tree.info_mk, Tree.kids_mk, Tree.allInfo, Bool.and_eq_true]
+      refine ⟨?_, hFok.2⟩
+      simp only [Tree.info_mk] at hFroot hmd
+      have := hFok.1
+      simp only [infoOK, hFroot] at this ⊢
+      exact mdBody_ok over _ _ _ this hmdR hmd
+  have hSok := allInfo_kids infoOK S (allInfo_at infoOK (n0 :: p0) F S hFok hS)
+  have hDok := allInfo_kids infoOK D (allInfo_at infoOK (n0 :: p0) Rt D hRok hD)
+  have hS'ok := allInfo_combine over S' S.info S.kids D.kids hS'w hS'i hSok.2 hSok.1 hDok.1 hspec
+  have hall := allInfo_replaceAt infoOK (n0 :: p0) (withBody F body') S' hF1ok hS'ok
+  have hF1r : (withBody F body').rootedWF CT DT = true := by
+    simp only [Tree.rootedWF, Bool.and_eq_true, beq_iff_eq] at hF ⊢
+    obtain ⟨hw1, _⟩ := rootMd_encode over F Rt.info body' hF.1.1 hmdname hmd
+    exact ⟨⟨hw1, by cases F; exact hF.1.2⟩, by cases F; exact hF.2⟩
+  exact C05_replace_root sess f F.name _ hv (rootedWF_replaceAt (withBody F body') S' n0 p0 hF1r hwf) hall
+
+-- non-vacuity / model run for `C05_target_below` on the example pair of C09 (`a` is in both trees): valid bodies on both sides,
+-- a valid file before, and the file after the targeted merge below `a` validates (append and append-over)
+example : exF.allInfo infoOK = true ∧ exR.allInfo infoOK = true ∧ validFile DT {} (fileOf {} "u" exF) = true ∧
+    (mdEntries exR.info).all (fun kv => mdEntryOK kv.2) = true := by decide
+example : ∀ over : Bool, (match appendInto DT (fileOf {} "u" exF) exR ["a"] over .below none with
+    | .ok f => validFile DT {} f && (f.at ["r", "a", "new", "newdeep"]).isSome && (f.at ["r", "a", "deepF"]).isSome
+    | .error _ => false) = true := by decide
+
 /-! ### per-class body validity: what `Array.to_h5` writes is a valid Array body -/
 
 theorem dim_prefix (n : Nat) : ((autoName "dim" n).toList.take 3 == ['d', 'i', 'm']) = true := by
